@@ -79,5 +79,5 @@ Report == Done => PrintT(<<"DONE", tid,
                            StrictLayout(file), intact, Idle>>)
 (* longest matched prefix per trace, for diagnosing rejections (-workers 1) *)
 Progress == TLCSet(tid, IF TLCGet(tid) > l THEN TLCGet(tid) ELSE l)
-PrintRegs == PrintT(<<"PROGRESS", [i \in 1..Len(Traces) |-> TLCGet(i)]>>)
+PrintRegs == \A i \in 1..Len(Traces) : PrintT(<<"PROG", i, TLCGet(i)>>)
 =============================================================================
